@@ -115,7 +115,7 @@ def items_of(dname):
 
 SLOTS = ["hide", "rename", "fill", "explicit_first", "explicit_pair", "fixed_top", "fixed_bottom",
          "opposing_element", "opposing_insertion", "key_alias", "key_subvar_id"]
-BAD = ["zz", -1, "-3", "1.5", 99, "99", None]
+BAD = ["zz", -1, "-3", "1.5", 99, "99", None, [2], {"id": 1}]
 
 
 def _states():
@@ -135,6 +135,8 @@ def _states():
             for b in range(len(BAD)):
                 if slot.startswith("key_") and dname.startswith("datetime"):
                     continue
+                if isinstance(BAD[b], (list, dict)) and slot in ("hide", "rename", "fill", "key_alias", "key_subvar_id"):
+                    continue      # those slots use the reference as a JSON object key: always a string
                 out.append((dname, slot, -1, b))
     return out
 
